@@ -130,3 +130,9 @@ VARIANTS += [
            [(IM, "    fresh = module is None\n    if module is None:\n", "    fresh = (module is None)\n    if module is None:\n")],
            ("C16",)),
 ]
+
+VARIANTS += [
+    silent("r10-import-time-registry",
+           [(CB, "def as_integer(value):", "_REGISTRY = []\n\n\ndef registered(fn):\n    _REGISTRY.append(fn)\n    return fn\n\n\n@registered\ndef as_integer(value):")],
+           ("C07", "C16")),
+]
